@@ -19,7 +19,7 @@ def dispatchNow (method ct : List Char) : Source := dispatch Gen.httpMethods Gen
 theorem tables_as_documented :
     Gen.httpMethods = [("GET".toList, .query), ("HEAD".toList, .query)] ∧
     Gen.httpTypes = [("application/json".toList, .json), ("application/x-www-form-urlencoded".toList, .form)] ∧
-    Gen.httpDefault = .query ∧ Gen.httpCutSep = [';'] := by decide
+    Gen.httpDefault = .query ∧ Gen.httpCutSep = [';'] ∧ Gen.httpUniform = true := by decide
 
 /-- GET and HEAD read the query string whatever the Content-Type says -/
 theorem get_head_read_query (ct : List Char) :
